@@ -10,6 +10,7 @@ import PygVerif.Model.Fail
 import PygVerif.Model.Zip
 import PygVerif.Model.Frame
 import PygVerif.Model.Site
+import PygVerif.Model.Serve
 import PygVerif.Driver.TalIO
 /-!
 # Driver — line protocol between the Python harness and the executable model
@@ -271,6 +272,27 @@ def step (fields : List String) : String :=
               | none => "CRASH-RENDER"
               | some b => encStr b
           else "!")))
+  | ["answer", umn, gm, srvName, srvPort, absH, absE, gemFoot, spaFoot, protos, tree, g, t, st, requests] =>
+    -- requests: space separated `tls;line;rest-lines`; output per request: pieces `T:<str>` / `B:<bytes>` joined by `;`, or NONE
+    (match parseRegex Generated.ignorePatt with
+     | none => "REGEX-UNSUPPORTED"
+     | some alts =>
+       let R := decTree tree
+       let sc := mkSiteCfg (decBool umn) (decBool gm) alts g t st
+       let c : ServeCfg := { site := sc, render := mkRenderCfg (decStr srvName) srvPort.toNat! (decBool absH) (decStr absE),
+                             waptop := Generated.waptop, protos := (decList protos).filterMap Proto.ofName,
+                             geminiFooter := decOpt gemFoot, spartanFooter := decOpt spaFoot }
+       let sf : StatFn := statAt R
+       " ".intercalate ((requests.splitOn " ").map fun r =>
+         match r.splitOn ";" with
+         | [tls, line, rest] =>
+           (match answer c sf Generated.queryPrefix ⟨decBool tls, decStr line, decList rest⟩ with
+            | none => "NONE"
+            | some ps => if ps.isEmpty then "EMPTY" else ";".intercalate (ps.map fun p =>
+                match p with
+                | .text s => "T:" ++ encStr s
+                | .bytes b => "B:" ++ encStr b))
+         | _ => "BAD"))
   | ["kstat", tree, rootStr, queries] =>
     -- the kernel's view: the whole file system `tree`, the configured root path, selectors
     let W := decTree tree
